@@ -102,7 +102,8 @@ def check_auth_unit(cls, urls_expr, variant):
 
 
 check_auth_list = check_auth_unit("AuthenticatorUrlsList", "self.valid_urls", "urls-list")
-# (relay_urls given as a single string is normalised to a one-element list by parse_options -- see its contract below)
+# (relay_urls given as a single string is normalised to a one-element list by parse_options, which is not under contract:
+# bounded/auth_enum.py builds the real Authenticator from every spelling of relay_urls -- fix 9ae5ec6)
 
 # ---------------------------------------------------------------------------------------------
 # C14  can_do
